@@ -431,7 +431,19 @@ def check(case, M):
                     res = cur.read_product(other)
                     reduced = False
                 elif o == "union":
-                    res = cur.read_union(other)
+                    fv = mrng.randrange(3)
+                    if fv == 0:
+                        res = cur.read_union(other)
+                    else:
+                        # a caller-supplied injective fusion (theorem C07_union_fusion): the result must be the default
+                        # union up to the renaming  fusion(a, b) -> (a, b), which is undone here
+                        fus = (lambda a, b: ("u", b, a)) if fv == 1 else (lambda a, b: ((a, "L"), (b, "R")))
+                        inv = (lambda q: (q[2], q[1])) if fv == 1 else (lambda q: (q[0][0], q[1][0]))
+                        ru = cur.read_union(other, fus)
+                        res = DFTA({(l, tuple(inv(a) for a in args)): inv(d) for (l, args), d in ru.rules.items()}, {inv(q) for q in ru.finals})
+                        if len(res.rules) != len(ru.rules):
+                            raise RuntimeError("undoing the fusion merged rules")
+                        tags.append("union.custom-fusion")
                     reduced = True
                 elif o in ("map", "map_noninj"):
                     sts = sorted(all_states(pre_rules, pre_finals), key=repr)
